@@ -347,6 +347,13 @@ def register(R):
                 citems = st1.obj(cbs).items if isinstance(cbs, Ref) and st1.obj(cbs).kind == 'list' else None
                 created = [oid for oid, hh in st1.heap.items() if oid not in c.old.st.heap and hh.kind == 'obj' and hh.cls is not None
                            and hh.cls.name == 'AggregatedProgressCallback']
+                gcp = [e for e in tr if e.kind == 'call' and e.name.endswith('get_callbacks') and e.extra['env'].get('callback_type') == 'progress']
+                if len(gcp) == 1 and isinstance(gcp[0].result, Ref) and st1.obj(gcp[0].result).kind == 'slist':
+                    ncb = to_int_term(st1.obj(gcp[0].result).meta['len'])
+                    out['progress_aggregator_exists_iff_there_are_progress_subscribers'] = (
+                        (ncb > 0) == B(len(created) == 1) if len(created) <= 1 else B(False), ['C09'])
+                    out['aggregator_reports_to_the_transfers_progress_subscribers'] = (B(all(
+                        st1.heap[o].fields.get('_callbacks') is gcp[0].result for o in created)), ['C09'])
                 out['body_reports_to_the_progress_aggregator_built_for_it'] = (B(
                     citems is not None and all(isinstance(x, Ref) for x in citems) and sorted(x.oid for x in citems) == sorted(created)), ['C09'])
                 out['body_is_throttled_iff_a_limiter_is_configured'] = (limiter_clause(st1, c.a_upload_input_manager, bh.fields['_fileobj']), ['C13'])
@@ -459,6 +466,16 @@ def register(R):
             out['part_body_starts_with_progress_reporting_off'] = (B(bh.fields.get('_callbacks_enabled') is False), ['C09'])
             created = [oid for oid, hh in st1.heap.items() if oid not in st0.heap and hh.kind == 'obj' and hh.cls is not None
                        and hh.cls.name == 'AggregatedProgressCallback']
+            created = [oid for oid, hh in st1.heap.items() if oid not in st0.heap and hh.kind == 'obj' and hh.cls is not None
+                       and hh.cls.name == 'AggregatedProgressCallback']
+            # an aggregator exists exactly when the transfer has progress subscribers, and it reports to them
+            gcp = [e for e in evs if e.kind == 'call' and e.name.endswith('get_callbacks') and e.extra['env'].get('callback_type') == 'progress']
+            if len(gcp) == 1 and isinstance(gcp[0].result, Ref) and st1.obj(gcp[0].result).kind == 'slist':
+                ncb = to_int_term(st1.obj(gcp[0].result).meta['len'])
+                out['progress_aggregator_exists_iff_there_are_progress_subscribers'] = (
+                    (ncb > 0) == B(len(created) == 1) if len(created) <= 1 else B(False), ['C09'])
+                out['aggregator_reports_to_the_transfers_progress_subscribers'] = (B(all(
+                    st1.heap[o].fields.get('_callbacks') is gcp[0].result for o in created)), ['C09'])
             out['part_body_has_its_own_progress_aggregator'] = (B(
                 citems is not None and all(isinstance(x, Ref) for x in citems) and len(aggs) == len(citems)
                 and all(a.oid not in st0.heap for a in aggs)
